@@ -53,6 +53,8 @@ type Prog struct {
 	permAxioms map[string]*Sort
 	ghostSorts map[string]*Sort // sorts of the call records (\ret, \arg)
 	callees    map[string][]string // static call graph over the functions of the packages (by base name)
+	bindings   map[string]bindInfo // roles of the program variables named in contracts (/verif/bindings.json)
+	bindOut    map[string]bindInfo // being generated (govc bindings)
 }
 
 func funcDisplayName(f *ssa.Function) string {
